@@ -113,6 +113,70 @@ impl Object for U {
     }
 }
 
+/// Host object that keeps values across scopes (`{% do bag.put(m) %}` … `{{ bag.get()() }}`).
+#[derive(Debug, Default)]
+struct Bag {
+    items: Mutex<Vec<Value>>,
+}
+
+impl Object for Bag {
+    fn call_method(self: &Arc<Self>, _state: &mut State<'_, '_>, method: &str, args: &[Value]) -> Result<Value, Error> {
+        match method {
+            "put" => {
+                self.items.lock().unwrap().extend(args.iter().cloned());
+                Ok(Value::from(""))
+            }
+            "get" => {
+                let items = self.items.lock().unwrap();
+                let idx = args.first().and_then(|v| v.as_usize()).unwrap_or(items.len().saturating_sub(1));
+                Ok(items.get(idx).cloned().unwrap_or(Value::UNDEFINED))
+            }
+            "size" => Ok(Value::from(self.items.lock().unwrap().len())),
+            _ => Err(Error::new(minijinja::ErrorKind::UnknownMethod, "bag has put/get/size")),
+        }
+    }
+}
+
+/// Host callable that calls its first argument back (with the remaining arguments): a template
+/// callable entered from Rust code in the middle of an expression.
+#[derive(Debug)]
+struct CallIt;
+
+impl Object for CallIt {
+    fn call(self: &Arc<Self>, state: &mut State<'_, '_>, args: &[Value]) -> Result<Value, Error> {
+        match args.first() {
+            Some(f) => f.call(state, &args[1..]),
+            None => Ok(Value::UNDEFINED),
+        }
+    }
+}
+
+thread_local! {
+    /// the names the host callable `peek` asked `State::lookup` for while the current case ran
+    static HOST_LOOKUPS: std::cell::RefCell<BTreeSet<String>> = const { std::cell::RefCell::new(BTreeSet::new()) };
+}
+
+/// Host callable that reads the context behind the template's back: `peek("a", "b")` asks
+/// `State::lookup` for every name it is given (as contrib's datetime filters ask for `TIMEZONE`).
+/// What it asks for is an explicit parameter of the property (exempt from the oracle, logged).
+#[derive(Debug)]
+struct Peek;
+
+impl Object for Peek {
+    fn call(self: &Arc<Self>, state: &mut State<'_, '_>, args: &[Value]) -> Result<Value, Error> {
+        let mut n = 0;
+        for a in args {
+            if let Some(name) = a.as_str() {
+                HOST_LOOKUPS.with(|h| h.borrow_mut().insert(name.to_string()));
+                if state.lookup(name).is_some() {
+                    n += 1;
+                }
+            }
+        }
+        Ok(Value::from(n))
+    }
+}
+
 /// The recording render context.
 #[derive(Debug)]
 struct Rec {
@@ -229,6 +293,8 @@ fn mk_context_with(which: usize, seed: u64, tagged: bool) -> Arc<Rec> {
     for key in STRING_ONLY_KEYS.iter() {
         inner.insert(key.to_string(), Value::from_object(U { depth: 2, len: 2, path: None }));
     }
+    // a host object that stores values across scopes (escape stream); fresh per context
+    inner.insert("bag".to_string(), Value::from_object(Bag::default()));
     Arc::new(Rec { inner, log: Mutex::new(Vec::new()), paths, tagged })
 }
 
@@ -241,8 +307,9 @@ struct Cfg {
     undefined: UndefinedBehavior,
     /// `add_template_owned` + `get_template` instead of `template_from_str`
     named: bool,
-    /// `<% %>`, `<< >>`, `<# #>` delimiters (`Environment::set_syntax`)
-    custom_syntax: bool,
+    /// `Environment::set_syntax`: 0 = default, 1 = `<% %>`, `<< >>`, `<# #>` delimiters,
+    /// 2 = default delimiters + line statements (`%% for x in y`) and line comments (`##`)
+    custom_syntax: u8,
 }
 
 impl Cfg {
@@ -255,7 +322,15 @@ impl Cfg {
                 _ => UndefinedBehavior::Lenient,
             },
             named: (seed >> 3) % 3 == 0,
-            custom_syntax: !is_expr && (seed >> 5) % 5 == 0,
+            custom_syntax: if is_expr {
+                0
+            } else {
+                match (seed >> 5) % 5 {
+                    0 => 1,
+                    1 => 2,
+                    _ => 0,
+                }
+            },
         }
     }
     fn label(&self) -> String {
@@ -263,27 +338,32 @@ impl Cfg {
             "{:?}/{}/{}",
             self.undefined,
             if self.named { "named" } else { "from_str" },
-            if self.custom_syntax { "custom-syntax" } else { "default-syntax" }
+            match self.custom_syntax {
+                1 => "custom-syntax",
+                2 => "line-statements",
+                _ => "default-syntax",
+            }
         )
     }
     fn syntax(&self) -> SyntaxConfig {
-        if self.custom_syntax {
-            SyntaxConfig::builder()
+        match self.custom_syntax {
+            1 => SyntaxConfig::builder()
                 .block_delimiters("<%", "%>")
                 .variable_delimiters("<<", ">>")
                 .comment_delimiters("<#", "#>")
                 .build()
-                .unwrap()
-        } else {
-            SyntaxConfig::default()
+                .unwrap(),
+            2 => SyntaxConfig::builder().line_statement_prefix("%%").line_comment_prefix("##").build().unwrap(),
+            _ => SyntaxConfig::default(),
         }
     }
     /// the source in the delimiters of this configuration
     fn source(&self, src: &str) -> String {
-        if self.custom_syntax {
-            src.replace("{{", "<<").replace("}}", ">>").replace("{%", "<%").replace("%}", "%>")
-        } else {
-            src.to_string()
+        match self.custom_syntax {
+            1 => src.replace("{{", "<<").replace("}}", ">>").replace("{%", "<%").replace("%}", "%>"),
+            // every block tag becomes a line statement of its own
+            2 => src.replace("{%", "\n%% ").replace("%}", "\n"),
+            _ => src.to_string(),
         }
     }
 }
@@ -341,6 +421,8 @@ fn mk_env(cfg: Cfg) -> Environment<'static> {
         true
     });
     env.add_test("u", |_v: Value, _rest: Rest<Value>| false);
+    env.add_global("callit", Value::from_object(CallIt));
+    env.add_global("peek", Value::from_object(Peek));
     env.add_function("gf", |_rest: Rest<Value>, kw: Kwargs| {
         eat(&kw);
         Value::from_object(U { depth: 2, len: 2, path: None })
@@ -1034,6 +1116,56 @@ impl Gen {
         }
         s
     }
+    /// a callable declared in ONE iteration of a loop (or in a with block), parked in a namespace
+    /// attribute / a list / handed to another macro, and called later in the loop and after it:
+    /// random names, parameters and bodies around the fixed skeleton (see `c18_esc.inc` for the
+    /// systematic version)
+    fn escape_idiom(&mut self, d: u32, in_macro: bool) -> String {
+        let name = *self.rng.pick(&MACROS);
+        let attr = *self.rng.pick(&ATTRS);
+        let params = self.macro_params(d);
+        let local = self.target_name();
+        let local_set = if self.rng.chance(2, 3) { format!("{{% set {} = {} %}}", local, self.expr(2)) } else { String::new() };
+        let body = self.body(d + 1, false, true);
+        let decl = if self.rng.chance(1, 4) {
+            // the caller of a call block, parked by the macro it is handed to
+            format!(
+                "{{% macro kp() %}}{{% set ns.{} = caller %}}{{% endmacro %}}{{% call({}) kp() %}}{}{{% endcall %}}",
+                attr, params, body
+            )
+        } else {
+            let park = match self.rng.below(3) {
+                0 => format!("{{% set ns.{} = [{}][0] %}}", attr, name),
+                1 => format!("{{% set ns.{} = {{'k': {}}}['k'] %}}", attr, name),
+                _ => format!("{{% set ns.{} = {} %}}", attr, name),
+            };
+            format!("{{% macro {}({}) %}}{}{{% endmacro %}}{}", name, params, body, park)
+        };
+        let call = match self.rng.below(4) {
+            0 => format!("{{{{ ns.{}({}) }}}}", attr, self.args(1)),
+            1 => format!("{{% with f = ns.{} %}}{{{{ f() }}}}{{% endwith %}}", attr),
+            2 => format!("{{{{ callit(ns.{}) }}}}", attr),
+            _ => format!("{{{{ ns.{}() }}}}", attr),
+        };
+        let guard = *self.rng.pick(&["loop.first", "loop.first", "loop.index == 2", "loop.last"]);
+        let target = self.target_name();
+        let later = self.body(d + 1, true, in_macro);
+        match self.rng.below(4) {
+            0 => format!(
+                "{{% set ns = namespace() %}}{{% with {} = {} %}}{}{}{{% endwith %}}{}{}",
+                target,
+                self.expr(2),
+                local_set,
+                decl,
+                later,
+                call
+            ),
+            _ => format!(
+                "{{% set ns = namespace() %}}{{% for {} in [1, 2, 3] %}}{{% if {} %}}{}{}{{% endif %}}{}{{% if ns.{} is defined %}}{}{{% endif %}}{{% endfor %}}{}",
+                target, guard, local_set, decl, later, attr, call, call
+            ),
+        }
+    }
     fn stmt(&mut self, d: u32, in_loop: bool, in_macro: bool) -> String {
         self.budget -= 2;
         if d >= 3 {
@@ -1169,7 +1301,10 @@ impl Gen {
                 format!("{{% block b{} %}}{}{{% endblock %}}", k, body)
             }
             27 => format!("{{{{ {} }}}}", self.expr(0)),
-            28 => format!("{{% set ns = namespace() %}}{{% set ns.{} = {} %}}", self.rng.pick(&ATTRS), self.expr_no_ns(1)),
+            28 if self.rng.chance(1, 2) => {
+                format!("{{% set ns = namespace() %}}{{% set ns.{} = {} %}}", self.rng.pick(&ATTRS), self.expr_no_ns(1))
+            }
+            28 => self.escape_idiom(d, in_macro),
             _ => {
                 let m = *self.rng.pick(&MACROS);
                 format!("{{{{ {}({}) }}}}", m, self.args(1))
@@ -1259,6 +1394,7 @@ const CORPUS: &[&str] = &[
 ];
 
 include!("c18_sys.inc");
+include!("c18_esc.inc");
 
 // ------------------------------------------------------------------------------------------------
 // running one template
@@ -1288,12 +1424,60 @@ const EXPR_MARK: &str = "#expr# ";
 
 include!("c18_set.inc");
 
+/// The engine's closure operations of one render (`verif_hooks::closures`), one token per
+/// operation, `token|attachments` with the attachments `closure:closure_context` of the frames
+/// of the active context (bottom first, `-` = none) after the operation:
+///   `P0` / `P1` push frame / loop frame, `O` pop, `S:key:mirrored-into`, `E:key:closure` (Enclose),
+///   `B:name:instructions#:offset:closure` (BuildMacro), `I` iterate (attachments not recorded),
+///   `T:taken` / `R:restored` take / reset closure, `M:instructions#:offset:closure:caller:k1+k2+…`
+///   macro call (keys of the value's closure object at that moment), `L` return.
+/// Instruction streams are numbered in order of appearance (addresses are not stable).
+fn heap_trace(events: &[minijinja::verif_hooks::closures::Event]) -> String {
+    use minijinja::verif_hooks::closures::Op;
+    let opt = |c: &Option<usize>| c.map_or("-".to_string(), |c| c.to_string());
+    let mut ids: Vec<usize> = Vec::new();
+    let mut id_of = |id: usize| -> usize {
+        match ids.iter().position(|x| *x == id) {
+            Some(k) => k,
+            None => {
+                ids.push(id);
+                ids.len() - 1
+            }
+        }
+    };
+    let mut out: Vec<String> = Vec::with_capacity(events.len());
+    for ev in events.iter() {
+        let tok = match &ev.op {
+            Op::PushFrame(is_loop) => format!("P{}", *is_loop as u8),
+            Op::PopFrame => "O".to_string(),
+            Op::Store(key, c) => format!("S:{}:{}", key, opt(c)),
+            Op::Enclose(key, c) => format!("E:{}:{}", key, opt(c)),
+            Op::BuildMacro(name, id, offset, c) => format!("B:{}:{}:{}:{}", name, id_of(*id), offset, opt(c)),
+            Op::Iterate => "I".to_string(),
+            Op::TakeClosure(c) => format!("T:{}", opt(c)),
+            Op::ResetClosure(c) => format!("R:{}", opt(c)),
+            Op::EnterMacro(id, offset, c, keys, caller) => {
+                format!("M:{}:{}:{}:{}:{}", id_of(*id), offset, opt(c), *caller as u8, keys.join("+"))
+            }
+            Op::LeaveMacro => "L".to_string(),
+        };
+        let frames: Vec<String> = ev.frames.iter().map(|(a, b)| format!("{}:{}", opt(a), opt(b))).collect();
+        out.push(format!("{}|{}", tok, frames.join(",")));
+    }
+    out.join(" ")
+}
+
 /// The contexts are derived from the source text alone, so a case replays from its hex.
-/// `light`: the systematic stream skips the debug-mode render.
-fn run_one(full_src: &str, light: bool) -> String {
+/// `shape`: the label of a systematic case ("" for the corpus and the random templates); the
+/// systematic streams skip the debug-mode render, the corpus, the random templates and the escape
+/// product additionally record the engine's closure operations (`heap_trace`).
+fn run_one(full_src: &str, shape: &str) -> String {
+    let light = !shape.is_empty();
+    let trace_heap = shape.is_empty() || shape.starts_with("esc|");
     if full_src.starts_with(SET_MARK) {
         return run_set(full_src);
     }
+    HOST_LOOKUPS.with(|h| h.borrow_mut().clear());
     let seed = fnv(full_src);
     let (is_expr, plain_src) = match full_src.strip_prefix(EXPR_MARK) {
         Some(rest) => (true, rest),
@@ -1460,13 +1644,27 @@ fn run_one(full_src: &str, light: bool) -> String {
         }
         Err(p) => format!("panic:{}", p.chars().take(80).collect::<String>()),
     };
+    // in how many renders did the output carry the marker of an escaped callable's body
+    let mut marks = 0usize;
+    let mut heap: Vec<String> = Vec::new();
     for which in 0..N_CONTEXTS {
         let rec = mk_context(which, seed);
         let ctx = Value::from_dyn_object(rec.clone());
+        let traced = trace_heap && !is_expr && which < 2;
+        if traced {
+            minijinja::verif_hooks::closures::start();
+        }
         let res = guarded(|| match &tmpl {
-            Subject::T(t) => t.render(ctx).map(|_| ()),
+            Subject::T(t) => t.render(ctx).map(|out| {
+                if out.contains("[~") {
+                    marks += 1;
+                }
+            }),
             Subject::E(e) => e.eval(ctx).map(|_| ()),
         });
+        if traced {
+            heap.push(heap_trace(&minijinja::verif_hooks::closures::stop()));
+        }
         outcomes.push(describe(res));
         let keys: BTreeSet<String> = rec.log.lock().unwrap().iter().cloned().collect();
         reads.push(json_list(keys.into_iter()));
@@ -1515,6 +1713,12 @@ fn run_one(full_src: &str, light: bool) -> String {
     fields.push(format!("\"reads\":[{}]", reads.join(",")));
     fields.push(format!("\"paths\":[{}]", paths.join(",")));
     fields.push(format!("\"outcome\":{}", json_list(outcomes)));
+    fields.push(format!("\"marks\":{}", marks));
+    if trace_heap && !is_expr {
+        fields.push(format!("\"heap\":{}", json_list(heap)));
+    }
+    let host: Vec<String> = HOST_LOOKUPS.with(|h| h.borrow().iter().cloned().collect());
+    fields.push(format!("\"host\":{}", json_list(host)));
     format!("{{{}}}", fields.join(","))
 }
 
@@ -1528,6 +1732,9 @@ fn n_generated(tier: &str) -> usize {
 
 /// how many of the non-sparse systematic templates quick selects (thorough: the whole product)
 const SYS_QUICK: usize = 12_000;
+
+/// how many of the non-canonical templates of the escape product quick selects
+const ESC_QUICK: usize = 5_000;
 
 /// the deterministic case sequence: corpus, seeded random templates, the systematic scope
 /// product (`c18_sys.inc`), the file sets (`c18_set.inc`); `f(shape label, source)`
@@ -1563,6 +1770,7 @@ fn for_each_source(tier: &str, f: &mut dyn FnMut(&str, &str)) {
         f("", &src);
     }
     sys_selected(tier, seed_from_env(), SYS_QUICK, f);
+    esc_selected(tier, seed_from_env(), ESC_QUICK, f);
     special_each(f);
     set_each(f);
 }
@@ -1689,7 +1897,7 @@ fn real_main() {
                     if only_sources {
                         writeln!(out, "{}", hex(src.as_bytes())).unwrap();
                     } else {
-                        writeln!(out, "{}\t{}", hex(src.as_bytes()), with_shape(run_one(src, !shape.is_empty()), shape)).unwrap();
+                        writeln!(out, "{}\t{}", hex(src.as_bytes()), with_shape(run_one(src, shape), shape)).unwrap();
                         out.flush().unwrap();
                     }
                 }
@@ -1697,17 +1905,37 @@ fn real_main() {
             };
             for_each_source(tier, &mut |shape, src| emit(&mut out, shape, src));
         }
+        Some("shapes") => {
+            // index, shape label and source of every case of the sequence (debugging aid)
+            let tier = args.get(2).map(|s| s.as_str()).unwrap_or("quick");
+            let prefix = args.get(3).cloned().unwrap_or_default();
+            let mut idx = 0usize;
+            for_each_source(tier, &mut |shape, src| {
+                if shape.starts_with(&prefix) {
+                    writeln!(out, "{}\t{}\t{}", idx, shape, src.replace(US, " := ").replace(RS, " ;; ")).unwrap();
+                }
+                idx += 1;
+            });
+        }
         Some("count") => {
             let tier = args.get(2).map(|s| s.as_str()).unwrap_or("quick");
-            writeln!(out, "sequence={} systematic-product={} sparse={}", n_sources(tier), sys_total(), sys_sparse_total()).unwrap();
+            writeln!(
+                out,
+                "sequence={} systematic-product={} sparse={} escape-product={}",
+                n_sources(tier),
+                sys_total(),
+                sys_sparse_total(),
+                esc_total()
+            )
+            .unwrap();
         }
         Some("one") => {
             let src = String::from_utf8(unhex(&args[2])).unwrap();
-            writeln!(out, "{}\t{}", hex(src.as_bytes()), run_one(&src, false)).unwrap();
+            writeln!(out, "{}\t{}", hex(src.as_bytes()), run_one(&src, "")).unwrap();
         }
         Some("text") => {
             let src = args[2].clone();
-            writeln!(out, "{}\t{}", hex(src.as_bytes()), run_one(&src, false)).unwrap();
+            writeln!(out, "{}\t{}", hex(src.as_bytes()), run_one(&src, "")).unwrap();
         }
         _ => {
             eprintln!("usage: c18 gen <quick|thorough> | srcs <tier> | count <tier> | one <hex> | text <src>");
